@@ -380,6 +380,79 @@ let c19 s b =
       Printf.bprintf b " %d%d%d" (if x then 1 else 0) (if y then 1 else 0) (if z then 1 else 0)
     done) gis
 
+
+(* ---- C18: view manipulation (fidget-gui Canvas2 / Canvas3), f32 instance ------------- *)
+let c18 s b =
+  let dim = next s in
+  let orc = libm_oracle in
+  let num = f32_num orc in
+  let zz () = let x = next s in let y = next s in (z_of_int x, z_of_int y) in
+  (* canonical bits: NaN -> 0x7fc00000, -0 -> +0 *)
+  let cb f = let v = int_of_f32 f in
+    if v land 0x7fffffff > 0x7f800000 then 0x7fc00000 else if v = 0x80000000 then 0 else v in
+  let finite f = (int_of_f32 f) land 0x7f800000 <> 0x7f800000 in
+  let pos_opt () = match next_tok s with "N" -> None | _ -> Some (zz ()) in
+  let mode_of = function 1 -> Some Pan | 2 -> Some Rotate | _ -> None in
+  if dim = 2 then begin
+    let size = zz () in
+    let n = next s in
+    let c = ref (f_canvas2_new orc size) in
+    let blown = ref false in
+    for _ = 1 to n do
+      let e = match next_tok s with
+        | "I" -> let sz = zz () in
+                 let cur = (match next_tok s with "N" -> None | _ -> let p = zz () in let d = next s in Some (p, d = 1)) in
+                 let sc = next_f32 s in EInteract2 (sz, cur, sc)
+        | "B" -> EBeginDrag2 (zz ())
+        | "D" -> EDrag2 (zz ())
+        | "E" -> EEndDrag2
+        | "Z" -> let a = next_f32 s in let p = pos_opt () in EZoom2 (a, p)
+        | "R" -> EResize2 (zz ())
+        | t -> failwith ("c18 event " ^ t) in
+      let (c', fl) = step2 num !c e in
+      c := c';
+      let v = c'.c2_view in
+      let (cx, cy) = v.v2_center in
+      if not (finite v.v2_scale && finite cx && finite cy) then blown := true;
+      if !blown then Printf.bprintf b "! ; " else
+      Printf.bprintf b "%s %d %d %d ; "
+        (match fl with None -> "-" | Some true -> "1" | Some false -> "0") (cb cx) (cb cy) (cb v.v2_scale)
+    done
+  end else begin
+    let (w, h) = zz () in let d = z_of_int (next s) in
+    let n = next s in
+    let c = ref (f_canvas3_new orc ((w, h), d)) in
+    let tainted = ref false in
+    let blown = ref false in
+    for _ = 1 to n do
+      let e = match next_tok s with
+        | "I" -> let (w, h) = zz () in let d = z_of_int (next s) in
+                 let cur = (match next_tok s with "N" -> None | _ -> let p = zz () in let m = next s in Some (p, mode_of m)) in
+                 let sc = next_f32 s in EInteract3 (((w, h), d), cur, sc)
+        | "B" -> let p = zz () in let m = next s in EBeginDrag3 (p, (if m = 2 then Rotate else Pan))
+        | "D" -> EDrag3 (zz ())
+        | "E" -> EEndDrag3
+        | "Z" -> let a = next_f32 s in let p = pos_opt () in EZoom3 (a, p)
+        | t -> failwith ("c18 event " ^ t) in
+      let (c', fl) = step3 num !c e in
+      c := c';
+      let v = c'.c3_view in
+      let ((cx, cy), cz) = v.v3_center in
+      (* once yaw or pitch has been non-zero the matrix products of nalgebra and of the
+         model round differently: the centre and the flags are then not compared *)
+      let zooming = (match e with EInteract3 _ | EZoom3 _ -> true | _ -> false) in
+      if not (finite v.v3_scale && finite cx && finite cy && finite cz) then blown := true;
+      if !blown then Printf.bprintf b "! ; " else
+      if !tainted || (zooming && (cb v.v3_yaw <> 0 || cb v.v3_pitch <> 0)) then
+        Printf.bprintf b "? ~ ~ ~ %d %d %d ; " (cb v.v3_scale) (cb v.v3_yaw) (cb v.v3_pitch)
+      else
+        Printf.bprintf b "%s %d %d %d %d %d %d ; "
+          (match fl with None -> "-" | Some true -> "1" | Some false -> "0")
+          (cb cx) (cb cy) (cb cz) (cb v.v3_scale) (cb v.v3_yaw) (cb v.v3_pitch);
+      if cb v.v3_yaw <> 0 || cb v.v3_pitch <> 0 then tainted := true
+    done
+  end
+
 (* ---- C11: interpreter interval evaluation: value or panic ---------------------- *)
 let c11 s b =
   let arena = parse_arena s in
@@ -473,6 +546,7 @@ let dispatch cmd s b =
   | "c13" -> c13 s b
   | "c16" -> c16 s b
   | "c19" -> c19 s b
+  | "c18" -> c18 s b
   | "bcval" -> cmd_bcval s b
   | "c20" -> c20 s b
   | "c04" -> c04 s b
